@@ -145,6 +145,10 @@ fn matcher_case(ctx: &mut Ctx, idx: u64) {
         let Some(t) = walker::choose(&mut rng, &mask, &v, pol) else { break };
         let was_accepting = m.is_accepting().unwrap_or(false);
         if m.consume_token(t).is_err() {
+            if crate::tp::accepted_with_relaxed_limits(&v, None, &g, &hist, t) {
+                ctx.rep.inconclusive("resource_stop");
+                return;
+            }
             viol!("masked_token_rejected", json!({"token": t}));
         }
         ops.push(format!("commit {t}"));
@@ -323,7 +327,13 @@ fn constraint_case(ctx: &mut Ctx, idx: u64) {
         }
         let cr = match c.commit_token(Some(t)) {
             Ok(cr) => cr,
-            Err(_) => viol!("masked_token_rejected", json!({"token": t})),
+            Err(_) => {
+                if crate::tp::accepted_with_relaxed_limits(&v, None, &g, &hist, t) {
+                    ctx.rep.inconclusive("resource_stop");
+                    return;
+                }
+                viol!("masked_token_rejected", json!({"token": t}))
+            }
         };
         ops.push(format!("commit {t}"));
         if cr.backtrack != 0 {
